@@ -153,13 +153,13 @@ BeautifyCases == {[family |-> "beautify", script |-> s] : s \in ScriptSpace}
 IsValueName(n) == SubSeq(n, 1, 1) \notin {"$", "%"}        \* scalars and canon streams need a definition
 LensUses(lens) == {lens[k].x : k \in {j \in 1..Len(lens) : lens[j].lk = "var"}}
 OpndUses(o) == IF o.o = "var" THEN (IF IsValueName(o.n) THEN {o.n} ELSE {}) \cup LensUses(o.lens) ELSE {}
-UsesOf(i) ==
+UsesOf(i, relaxFail) ==
     CASE i.op = "call" -> OpndUses(i.peer) \cup OpndUses(i.srv) \cup OpndUses(i.fn)
                           \cup UNION {OpndUses(i.args[k]) : k \in 1..Len(i.args)}
       [] i.op \in {"match", "mismatch"} -> OpndUses(i.a) \cup OpndUses(i.b)
       [] i.op = "ap" -> OpndUses(i.src)
       [] i.op = "fold" -> OpndUses(i.it)
-      [] i.op = "fail" -> OpndUses(i.a)
+      [] i.op = "fail" -> IF relaxFail THEN {} ELSE OpndUses(i.a)
       [] i.op = "canon" -> OpndUses(i.peer)
       [] OTHER -> {}
 DefsOf(i) ==
@@ -169,7 +169,7 @@ DefsOf(i) ==
       [] OTHER -> {}
 RECURSIVE Scoped(_, _)
 Scoped(i, env) ==
-    LET usesOk == UsesOf(i) \subseteq (env.defs \cup env.iters) IN
+    LET usesOk == UsesOf(i, env.relaxFail) \subseteq (env.defs \cup env.iters) IN
     CASE i.op \in {"seq", "par", "xor"} ->
             LET l == Scoped(i.l, env)
                 r == Scoped(i.r, [env EXCEPT !.defs = l.defs]) IN
@@ -179,16 +179,19 @@ Scoped(i, env) ==
       [] i.op = "new" ->
             LET b == Scoped(i.i, [env EXCEPT !.defs = @ \cup (IF IsValueName(i.n) THEN {i.n} ELSE {})]) IN [ok |-> b.ok, defs |-> b.defs]
       [] i.op = "fold" ->
-            LET b == Scoped(i.i, [defs |-> env.defs \cup {i.x}, iters |-> env.iters \cup {i.x}])
+            LET b == Scoped(i.i, [env EXCEPT !.defs = @ \cup {i.x}, !.iters = @ \cup {i.x}])
                 la == IF i.last.op = "none" THEN [ok |-> TRUE, defs |-> b.defs]
-                      ELSE Scoped(i.last, [defs |-> b.defs, iters |-> env.iters \cup {i.x}]) IN
+                      ELSE Scoped(i.last, [env EXCEPT !.defs = b.defs, !.iters = @ \cup {i.x}]) IN
             [ok |-> usesOk /\ b.ok /\ la.ok, defs |-> la.defs]
       [] i.op = "next" -> [ok |-> i.x \in env.iters, defs |-> env.defs]
       [] i.op = "none" -> [ok |-> TRUE, defs |-> env.defs]
       [] OTHER -> [ok |-> usesOk, defs |-> env.defs \cup DefsOf(i)]
-WellScoped(script) == Scoped(script, [defs |-> {}, iters |-> {}]).ok
+WellScoped(script) == Scoped(script, [defs |-> {}, iters |-> {}, relaxFail |-> FALSE]).ok
+\* known finding "fail-scalar-undefined": the validator does not look at the operand of `fail <scalar>`
+WellScopedButFail(script) == Scoped(script, [defs |-> {}, iters |-> {}, relaxFail |-> TRUE]).ok
 
 ParseExpect(c, o) == o.res \in {"ok", "err"} /\ (o.res = "ok" => WellScoped(c.script))
+ParseTag(c, o) == IF o.res = "ok" /\ WellScopedButFail(c.script) THEN "fail-scalar-undefined" ELSE ""
 
 \* C28 oracle: the layout of the beautified script: one line per instruction in order, indentation = nesting
 \* depth with sequences flattened, compound instructions introduced by their keyword, operands as in the script.
@@ -258,8 +261,10 @@ Rec == ndJsonDeserialize(IOEnv.TRACE)
 CheckInit == cs = [family |-> "none"] /\ l = 1
 CheckNext == l <= Len(Rec) /\ l' = l + 1 /\ cs' = Rec[l].case
 CheckSpec == CheckInit /\ [][CheckNext]_<<cs, l>>
+Tag(c, o) == IF c.family = "parse" THEN ParseTag(c, o) ELSE ""
 CheckCase ==
-    l > 1 => (Expect(Rec[l - 1].case, Rec[l - 1].obs) \/ PrintT(<<"VIOLATION", IOEnv.PROP, Rec[l - 1].n, 0>>))
+    l > 1 => (Expect(Rec[l - 1].case, Rec[l - 1].obs)
+              \/ PrintT(<<"VIOLATION", IOEnv.PROP, Rec[l - 1].n, 0, Tag(Rec[l - 1].case, Rec[l - 1].obs)>>))
 \* the executed cases are exactly the enumerated space
 AllExecuted ==
     LET d == TLCGet("stats").diameter IN
